@@ -3,6 +3,7 @@
 (apply to /repo, evaluate dry, undo). A firing check is a FALSE ALARM to be fixed in the machinery."""
 import json, os, shutil, subprocess, sys
 V = os.path.dirname(os.path.dirname(os.path.abspath(__file__)))
+REPO = os.environ.get("HALO_REPO", "/repo")       # a scratch worktree (with HALO_CACHE) lets several corpus runs go in parallel
 os.makedirs(os.path.join(V, "refactors"), exist_ok=True)
 for rf in sys.argv[1:]:
     src = "/tmp/wt/%s/REFACTOR" % rf
@@ -18,13 +19,15 @@ for rf in sys.argv[1:]:
                     shutil.copy(md, os.path.join(d, "README.md"))
 man = json.load(open(os.path.join(V, "MANIFEST.json")))
 checks = [c["property_id"] for c in man["checks"]]
+if os.environ.get("HALO_CHECKS"):
+    checks = os.environ["HALO_CHECKS"].split(",")      # partial run while iterating on one rule (results are then partial too)
 ids = sorted(d for d in os.listdir(os.path.join(V, "refactors")) if os.path.isdir(os.path.join(V, "refactors", d)))
 only = [a for a in sys.argv[1:]]
 for rid in ids:
     if only and not any(rid.startswith(o) for o in only):
         continue
     patch = os.path.join(V, "refactors", rid, "patch.diff")
-    if subprocess.run("git -C /repo apply %s" % patch, shell=True).returncode != 0:
+    if subprocess.run("git -C %s " % REPO + "apply %s" % patch, shell=True).returncode != 0:
         print(rid, "PATCH DOES NOT APPLY"); continue
     try:
         code = "import json,sys; sys.path.insert(0,%r); from analysis import engine; print('@@'+json.dumps(engine.evaluate_dry(%r)))" % (V, checks)
@@ -32,7 +35,7 @@ for rid in ids:
         line = [l for l in p.stdout.splitlines() if l.startswith("@@")]
         res = json.loads(line[0][2:]) if line else {"BUILD": [{"instance": "build", "at": "-", "reason": p.stdout[-300:], "key": "build"}]}
     finally:
-        subprocess.run("git -C /repo checkout -- . && git -C /repo clean -fdq", shell=True)
+        subprocess.run("git -C %s " % REPO + "checkout -- . && git -C %s clean -fdq -e target" % REPO, shell=True)
     fired = {c: vs for c, vs in res.items() if vs}
     json.dump({"id": rid, "false_alarms": {c: [v["key"] + " :: " + v["reason"][:200] for v in vs[:5]] for c, vs in fired.items()}}, open(os.path.join(V, "refactors", rid, "result.json"), "w"), indent=1)
     mp = os.path.join(V, "refactors", rid, "meta.json")
